@@ -17,7 +17,7 @@ RULE = ("histories = lists of plain-data steps (set single key / set key tuple /
 ASSUMPTIONS = [
   "keys and values are hashable and compared with ==, so 1, 1.0 and True are one key / one value",
   "lookups use scalar keys (a tuple passed to d[...] addresses the stored tuple itself, documented as an IPython work-around)",
-  "StrategyDict names are strings that are not attributes of the class; the default is never assigned manually",
+  "StrategyDict names are strings (two of them, copy and keys, shadow dict methods on purpose); attributes and the default are never assigned manually",
 ]
 
 
@@ -86,8 +86,8 @@ def compare(d, m, universe, values, ctx):
     raise Violation("len %d != %d %s" % (len(d), len(m.groups), ctx))
   if _srt(iter(d)) != _srt(g[0] for g in m.groups):
     raise Violation("iteration %r != values %r %s" % (list(d), [g[0] for g in m.groups], ctx))
-  if _srt(d.keys()) != _srt(tuple(g[1]) for g in m.groups):
-    raise Violation("keys() %r %s" % (list(d.keys()), ctx))
+  if _srt(dict.keys(d)) != _srt(tuple(g[1]) for g in m.groups):
+    raise Violation("keys() %r %s" % (list(dict.keys(d)), ctx))
   for k in universe:
     g = m.find(k)
     try:
@@ -236,8 +236,9 @@ def run_mkd(case):
 
 
 # ---------------------------------------------------------------- StrategyDict
-NAMES = ["p", "q", "r", "s", "zz"]
-assert not any(hasattr(StrategyDict, n) for n in NAMES)
+NAMES = ["p", "q", "r", "s", "zz", "copy", "keys"]
+INHERITED = [n for n in NAMES if hasattr(StrategyDict, n)]     # names that shadow a dict method
+assert INHERITED == ["copy", "keys"]
 NF = 4
 
 
@@ -254,20 +255,40 @@ def strat_sd(tier):
     st.tuples(st.just("delattr"), name),
     st.tuples(st.just("call"), st.integers(0, 5)),
   )
-  return st.fixed_dictionaries(dict(named=st.booleans(), ops=st.lists(op, max_size=maxlen)))
+  return st.fixed_dictionaries(dict(named=st.booleans(), ops=st.lists(op, max_size=maxlen),
+                                    values=st.sampled_from(["functions", "functions", "bound methods"])))
+
+
+class _Strategies(object):
+  """Bound methods: every attribute access gives a new object that is == to the previous ones."""
+  def m0(self, *a, **kw):
+    return (0, a)
+
+  def m1(self, *a, **kw):
+    return (1, a)
+
+  def m2(self, *a, **kw):
+    return (2, a)
+
+  def m3(self, *a, **kw):
+    return (3, a)
 
 
 def run_sd(case):
   def mk(i):
     def f(*a, **kw):
       return (i, a)
-    f.idx = i
     return f
-  funcs = [mk(i) for i in range(NF)]
+  methods = case.get("values") == "bound methods"
+  holder = _Strategies()
+  fixed = [mk(i) for i in range(NF)]
+  # val(i): the i-th strategy; for bound methods a fresh, equal but not identical object each time
+  val = (lambda i: getattr(holder, "m%d" % i)) if methods else (lambda i: fixed[i])
+  idx = lambda f: [i for i in range(NF) if val(i) == f][0]
   sd = StrategyDict("sd_under_test") if case["named"] else StrategyDict()
   m = Model()
-  default = [None]
-  facts = set()
+  default = [None]      # index of the expected default
+  facts = set(["values:" + ("bound methods" if methods else "functions")])
 
   def mdelete(k):
     g = m.find(k)
@@ -277,41 +298,42 @@ def run_sd(case):
     m.delete(k)
     if last:
       facts.add("delete-last-key")
-      if default[0] is not None and g[0] is default[0]:
+      if default[0] is not None and idx(g[0]) == default[0]:
         default[0] = None
         facts.add("default lost its names")
     else:
       facts.add("shared")
 
-  def mset(names, f):
+  def mset(names, i):
     for k in names:
       if m.find(k) is not None:
         facts.add("overwrite")
         mdelete(k)
-    if any(g[0] is f for g in m.groups):
+    if any(g[0] == val(i) for g in m.groups):
       facts.add("merge-by-equal-value")
-    m.set(tuple(names), f)
+    m.set(tuple(names), val(i))
     if default[0] is None:
-      default[0] = f
+      default[0] = i
       if "default lost its names" in facts:
         facts.add("default re-chosen")
 
   for n, op in enumerate(case["ops"]):
-    ctx = "at step %d of %r" % (n, case["ops"])
+    ctx = "at step %d of %r (%s)" % (n, case["ops"], case.get("values"))
     if op[0] == "set":
-      sd[op[1]] = funcs[op[2]]
-      mset(op[1], funcs[op[2]])
+      sd[op[1]] = val(op[2])
+      mset(op[1], op[2])
     elif op[0] == "set1":
-      sd[op[1]] = funcs[op[2]]
-      mset((op[1],), funcs[op[2]])
+      sd[op[1]] = val(op[2])
+      mset((op[1],), op[2])
     elif op[0] == "deco":
-      f = funcs[op[2]]
-      ret = sd.strategy(*op[1], keep_name=op[3])(f)
+      f = val(op[2])
+      keep = op[3] or methods          # a bound method's __name__ cannot be rewritten
+      ret = sd.strategy(*op[1], keep_name=keep)(f)
       if ret is not sd:
         raise Violation("strategy()(f) returned %r, not the dict %s" % (ret, ctx))
-      if not op[3] and f.__name__ != op[1][0]:
+      if not keep and f.__name__ != op[1][0]:
         raise Violation("decorated function is named %r, expected %r %s" % (f.__name__, op[1][0], ctx))
-      mset(op[1], f)
+      mset(op[1], op[2])
     elif op[0] in ("del", "delattr"):
       e1 = e2 = None
       try:
@@ -332,18 +354,21 @@ def run_sd(case):
         raise Violation("%r: real raised %r, model %r %s" % (op, e1, e2, ctx))
     elif op[0] == "call":
       got = sd(op[1], 7)
-      exp = NotImplemented if default[0] is None else (default[0].idx, (op[1], 7))
+      exp = NotImplemented if default[0] is None else (default[0], (op[1], 7))
       if got is not exp and got != exp:
         raise Violation("sd(%r, 7) -> %r, expected %r %s" % (op[1], got, exp, ctx))
     # state comparison
-    compare(sd, m, NAMES, funcs, ctx)
+    compare(sd, m, NAMES, [val(i) for i in range(NF)], ctx)
     for name in NAMES:
       g = m.find(name)
       if g is not None:
-        if not hasattr(sd, name) or getattr(sd, name) is not sd[name] or sd[name] is not g[0]:
-          raise Violation("live name %r: attribute %r, item %r, model f%d %s"
-                          % (name, getattr(sd, name, "<absent>"), sd[name], g[0].idx, ctx))
-      elif name in vars(sd) or hasattr(sd, name):
+        # "every name is an attribute equal to the item"
+        if name not in vars(sd) or not (getattr(sd, name) == sd[name]) or not (sd[name] == g[0]):
+          raise Violation("live name %r: attribute %r, item %r, model strategy %d %s"
+                          % (name, vars(sd).get(name, "<no instance attribute>"), sd[name], idx(g[0]), ctx))
+        if name in INHERITED:
+          facts.add("name shadows a dict method")
+      elif name in vars(sd) or (name not in INHERITED and hasattr(sd, name)):
         raise Violation("dead name %r still is an attribute (%r) %s" % (name, getattr(sd, name), ctx))
     if default[0] is None:
       if "default" in vars(sd):
@@ -351,11 +376,10 @@ def run_sd(case):
       if sd.default(1) is not NotImplemented:
         raise Violation("fallback default does not return NotImplemented %s" % ctx)
     else:
-      if vars(sd).get("default") is not default[0]:
-        raise Violation("default is %r, expected f%d %s"
-                        % (getattr(vars(sd).get("default"), "idx", vars(sd).get("default")), default[0].idx, ctx))
-    if sorted(x.idx for x in sd) != sorted(g[0].idx for g in m.groups):
-      raise Violation("iteration over strategies %r %s" % ([x.idx for x in sd], ctx))
+      if "default" not in vars(sd) or not (vars(sd)["default"] == val(default[0])):
+        raise Violation("default is %r, expected strategy %d %s" % (vars(sd).get("default"), default[0], ctx))
+    if sorted(idx(x) for x in sd) != sorted(idx(g[0]) for g in m.groups):
+      raise Violation("iteration over strategies %r %s" % ([idx(x) for x in sd], ctx))
   return {"nontrivial": bool(facts & {"shared", "merge-by-equal-value", "default re-chosen"}),
           "labels": sorted(facts) or ["plain"]}
 
